@@ -1155,6 +1155,9 @@ def python_rules(cfg, R):
 
 
 SELFTEST = [
+    dict(id='rebind-keeps-year-and-flag', file='src/ace_time/ExtendedZoneProcessor.h',
+         find='          (const extended::ZoneInfo*) zoneInfo);\n      mYear = 0;\n      mIsFilled = false;\n',
+         replace='          (const extended::ZoneInfo*) zoneInfo);\n', rule='R7'),
     dict(id='lookup-memo-outside-the-flag', file='src/ace_time/ExtendedZoneProcessor.h', rule='R4-writers', edits=[
         dict(file='src/ace_time/ExtendedZoneProcessor.h', find='      return mTransitionStorage.findTransition(epochSeconds);\n',
              replace='      if (epochSeconds != mPrevEpochSeconds || mPrevTransition == nullptr) {\n        mPrevEpochSeconds = epochSeconds;\n        mPrevTransition = mTransitionStorage.findTransition(epochSeconds);\n      }\n      return mPrevTransition;\n'),
